@@ -8,6 +8,9 @@
 #include <QTcpServer>
 #include <QTcpSocket>
 #include <QThread>
+#include <netinet/in.h>
+#include <netinet/tcp.h>
+#include <sys/socket.h>
 #include <qhttpengine/proxyhandler.h>
 #include <qhttpengine/socket.h>
 using namespace QHttpEngine;
@@ -46,6 +49,13 @@ void runProxy(const Scn &scn, Out &out)
             QCoreApplication::processEvents(QEventLoop::AllEvents, 2);
             QCoreApplication::sendPostedEvents(nullptr, QEvent::DeferredDelete);
             if (!upSock && upstream.hasPendingConnections()) upSock = upstream.nextPendingConnection();
+            // once the scripted upstream has sent something, the kernel delays its acknowledgements (~40 ms) and
+            // Nagle's algorithm then holds back the proxy's next small write for as long: ask for immediate
+            // acknowledgements (the option is not sticky, so on every round)
+            if (upSock && upSock->state() == QAbstractSocket::ConnectedState) {
+                int one = 1;
+                setsockopt(int(upSock->socketDescriptor()), IPPROTO_TCP, TCP_QUICKACK, &one, sizeof one);
+            }
             if (upSock && upSock->bytesAvailable()) received.append(upSock->readAll());
             if (obs->size() == lastObs && received.size() == lastRecv) { ++quiet; QThread::msleep(2); }
             else quiet = 0;
